@@ -32,34 +32,41 @@ def opsLsb0 : Handler := fun st toks =>
     | none => pure (st, specMark "panic" (if fits then "ok" else "panic"))
   | ["stats", d] => do
     let (_, sl) ← b? d
-    pure (st, specMark (showStats (Bitmap.statistics sl.m) (Bitmap.serializedSize sl.m))
+    pure (st, specMark (showStats (Bitmap.statisticsM sl.m) (Bitmap.serializedSize sl.m))
                        (showStatsSpec (Spec.stats sl.s)))
   | ["debug", d] => do
     let (_, sl) ← b? d
     let spec := showDebug (Spec.debugString sl.s)
-    match Bitmap.debugFmt sl.m with
+    match Bitmap.debugFmtM sl.m with
     | some s => pure (st, specMark (showDebug s) spec)
     | none => pure (st, specMark "panic" spec)
   | ["serde_events", d] => do
     let (_, sl) ← b? d
-    let evs := Serde.serEvents sl.m
+    match Serde.serEventsM st.dbg sl.m with
+    | none => pure (st, "panic")
+    | some evs =>
     let bs := evs.flatMap fun e => match e with
       | .bytes b => b
       | .other _ => []
     -- `same`: the bytes handed over are those of `serialize_into` (true by definition in the model)
-    pure (st, s!"calls={",".intercalate (evs.map Serde.Event.method)} n={bs.length} sh={hex64 (fnv bs)} same={showBool (bs == Bitmap.serialize sl.m)}")
+    pure (st, s!"calls={",".intercalate (evs.map Serde.Event.method)} n={bs.length} sh={hex64 (fnv bs)} same={showBool (some bs == Bitmap.serializeM st.dbg sl.m)}")
   | ["serde_visit", kind, d, src] => do
     let i ← parseSlot64 'b' d
     -- the byte string: literal `hex:…`, or `ser:bN` = the serialisation of slot `bN`
-    let (bytes, orig) ← (if src.startsWith "ser:" then
-        (b? (src.drop 4).toString).map fun (_, sl) => (Bitmap.serialize sl.m, some sl.s)
-      else (parseHex src).map fun bs => (bs, none) : Option (List Nat × Option (List Nat)))
-    let inp ← (match kind with
-      | "bytes" => some (Serde.Input.bytes bytes)
-      | "borrowed" => some (Serde.Input.borrowedBytes bytes)
-      | "buf" => some (Serde.Input.byteBuf bytes)
-      | "seq" => some (Serde.Input.seq bytes)
-      | _ => none : Option Serde.Input)
+    let (bytes?, orig) ← (if src.startsWith "ser:" then
+        (b? (src.drop 4).toString).map fun (_, sl) => (Bitmap.serializeM st.dbg sl.m, some sl.s)
+      else (parseHex src).map fun bs => (some bs, none) : Option (Option (List Nat) × Option (List Nat)))
+    -- (the delivery kind is parsed before the source is serialised, as in the harness)
+    let mkInp ← (match kind with
+      | "bytes" => some Serde.Input.bytes
+      | "borrowed" => some Serde.Input.borrowedBytes
+      | "buf" => some Serde.Input.byteBuf
+      | "seq" => some Serde.Input.seq
+      | _ => none : Option (List Nat → Serde.Input))
+    match bytes? with
+    | none => pure (st, "panic")       -- `serialize_into` of the source slot panicked
+    | some bytes =>
+    let inp := mkInp bytes
     -- SPEC: the serialisation of a value decodes to an equal value (`ok`, same set)
     match Serde.visit st.dbg inp, orig with
     | .ok m, some s => pure (st.setB i ⟨m, s⟩, "ok")
